@@ -136,17 +136,82 @@ def run(eng: Engine, ck: Check):
 
     # ---- R-C06-CANCEL-ALL
     ct = eng.func(TMODEL, 'Transfer.cancel_tasks')
-    cancelled = {c.func.value.attr for c in calls_on(ct.node, 'cancel') if isinstance(c.func.value, ast.Attribute)}
-    returned = {a.args[0].attr for a in calls_on(ct.node, 'append') if a.args and isinstance(a.args[0], ast.Attribute)}
-    ck.ob('R-C06-CANCEL-ALL', ct, ct.node, 'Transfer.cancel_tasks cancels and returns every task slot of the transfer',
+    tcls = eng.cls('Transfer', TMODEL)
+
+    def enumerated(fn, e, depth=0) -> set:
+        """Slots that the expression `e` (in function fn) enumerates in full: `self.S`, a tuple/list of those, a local list
+        they are appended to, `self.get_tasks()`-like helpers (one level).  `a or b` enumerates nothing (first non-None only)."""
+        sa = single_assignments(fn)
+        if isinstance(e, ast.Attribute) and isinstance(e.value, ast.Name) and e.value.id == 'self' and e.attr in slots:
+            return {e.attr}
+        if isinstance(e, (ast.Tuple, ast.List, ast.Set)):
+            return set().union(*[enumerated(fn, x, depth) for x in e.elts]) if e.elts else set()
+        if isinstance(e, ast.Starred):
+            return enumerated(fn, e.value, depth)
+        if isinstance(e, ast.Name):
+            out = set()
+            if e.id in sa and sa[e.id] is not None and depth < 3:
+                out |= enumerated(fn, sa[e.id], depth + 1)
+            for c in calls_on(fn.node, 'append') + calls_on(fn.node, 'extend') + calls_on(fn.node, 'add'):
+                if isinstance(c.func.value, ast.Name) and c.func.value.id == e.id and c.args:
+                    gs = [g for g, pol, _ in eng.guards_at(fn, c)]
+                    arg_slots = enumerated(fn, c.args[0], depth + 1)
+                    # an append guarded by anything but the slot's own None-test does not count
+                    if all(any(mentions_attr(g, sl) for sl in arg_slots) or (isinstance(c.args[0], ast.Name) and mentions_name(g, c.args[0].id))
+                           for g in gs):
+                        out |= arg_slots
+            return out
+        if isinstance(e, ast.Call) and isinstance(e.func, ast.Attribute) and isinstance(e.func.value, ast.Name) and \
+                e.func.value.id == 'self' and e.func.attr in tcls.methods and depth < 2:
+            m = tcls.methods[e.func.attr]
+            out = set()
+            rets = [r.value for r in walk_local(m.node) if isinstance(r, ast.Return) and r.value is not None]
+            if len(rets) == 1:
+                out = enumerated(m, rets[0], depth + 1)
+            return out
+        if isinstance(e, ast.Call) and call_name(e) in ('list', 'tuple', 'set', 'sorted') and e.args:
+            return enumerated(fn, e.args[0], depth)
+        if isinstance(e, (ast.ListComp, ast.GeneratorExp, ast.SetComp)) and len(e.generators) == 1 and \
+                isinstance(e.elt, ast.Name) and isinstance(e.generators[0].target, ast.Name) and e.elt.id == e.generators[0].target.id:
+            g = e.generators[0]
+            # a filter may only drop empty (None) or finished entries
+            if all(mentions_name(i, e.elt.id) and ('None' in unparse(i) or 'done()' in unparse(i) or unparse(i) == e.elt.id) for i in g.ifs):
+                return enumerated(fn, g.iter, depth)
+        return set()
+
+    cancelled, extra = set(), []
+    for c in calls_on(ct.node, 'cancel'):
+        recv = c.func.value
+        got = set()
+        loopvar = None
+        if isinstance(recv, ast.Name):
+            loop = next((a for a in ancestors(c) if isinstance(a, (ast.For, ast.AsyncFor)) and isinstance(a.target, ast.Name)
+                         and a.target.id == recv.id), None)
+            if loop is not None:
+                got = enumerated(ct, loop.iter)
+                loopvar = recv.id
+            else:
+                got = enumerated(ct, recv)
+        else:
+            got = enumerated(ct, recv)
+        gs = [(e, pol) for e, pol, _ in eng.guards_at(ct, c)
+              if not (any(mentions_attr(e, sl) for sl in got) and len(got) == 1) and not (loopvar and mentions_name(e, loopvar) and 'None' in unparse(e))
+              and not (loopvar and unparse(e) == loopvar)]
+        if gs:
+            extra.append((unparse(c), [unparse(e) for e, _ in gs]))
+            continue
+        cancelled |= got
+    rets = [r.value for r in walk_local(ct.node) if isinstance(r, ast.Return) and r.value is not None]
+    returned = set(slots)
+    for r in rets:
+        returned &= enumerated(ct, r)
+    if not rets:
+        returned = set()
+    ck.ob('R-C06-CANCEL-ALL', ct, ct.node, 'Transfer.cancel_tasks cancels and returns every task slot of the transfer '
+          '(each slot on its own: set => cancelled and returned, whatever the other slots hold)',
           set(slots) <= cancelled and set(slots) <= returned,
-          f'slots {slots}, cancelled {sorted(cancelled)}, returned {sorted(returned)}', construct='cancel_tasks covers slots')
-    for sl in slots:
-        for c in calls_on(ct.node, 'cancel'):
-            if isinstance(c.func.value, ast.Attribute) and c.func.value.attr == sl:
-                gs = [(e, p) for e, p, _ in eng.guards_at(ct, c) if not mentions_attr(e, sl)]
-                ck.ob('R-C06-CANCEL-ALL', ct, c, f'{sl}.cancel() depends on nothing but the slot being set', not gs,
-                      f'extra conditions: {[unparse(e) for e, p in gs]}', construct=f'cancel {sl}')
+          f'slots {slots}, cancelled whenever set {sorted(cancelled)}, returned {sorted(returned)}'
+          + (f'; cancel calls under extra conditions: {extra}' if extra else ''), construct='cancel_tasks covers slots')
     base = eng.cls('TransferState', TSTATE)
     ctt = base.methods.get('_cancel_transfer_tasks')
     stt = base.methods.get('_stop_transfer')
